@@ -782,7 +782,7 @@ def check_wf(fields, snap, path, bad):
             if k in defaults or v is None:
                 continue
             for m in SF.declared(nd["fd"], v):
-                bad.append("%s holds %r: %s" % (CO.pjoin(path, k), v, m))
+                bad.append("%s holds %r: %s" % (CO.pjoin(path, k), unproxy(v), m))
         elif nd["t"] == "sub":
             if not (isinstance(v, tuple) and len(v) == 3):
                 bad.append("%s is not a configuration" % CO.pjoin(path, k))
